@@ -198,6 +198,53 @@ def crashStep (d : CrashDrv) (line : String) : CrashDrv × String :=
     ({ d with m := m3, steps := d.steps ++ [{ fs0 := fs0, w := w, f := f }],
               vals := stamped.map (fun e => ((e.key, e.ver), e)) ++ d.vals },
      s!"ts={ts} W: {toks w} | F: {toks f}")
+  | "batch" :: rotsS :: reqs =>
+    -- `batch`: the first commit is served alone (it is the one the writer is stuck on while the
+    -- others queue up), the remaining ones by ONE `writeRequests` call: `valueLog.write` for
+    -- all of them (one deferred msync of the value log at the end), then per request
+    -- `ensureRoomForWrite` (memtable rotation when full) and `writeToLSM` (WAL records, end
+    -- marker, **msync of the WAL the request went to**); all are acknowledged at the end.
+    let rots := (rotsS.drop 5).toString.splitOn ";" |>.filterMap (·.toNat?)
+    let fs0 := d.m.fs
+    let ts0 := d.m.p.nextTs
+    match reqs with
+    | [] => (d, "bad-op")
+    | r0 :: rest =>
+      -- first request: an ordinary commit
+      let es0 := parseEnts d.thr r0
+      let st0 := stamp d.m.p es0
+      let m1 := d.m.step (.commit es0 (rots.headD 0 != 0))
+      let (m2, w0) := runW m1 []
+      -- the batch: timestamps are allocated when the commits are issued, in order
+      let rec vl (m : MState) (rs : List String) (ts : Nat) (txns : List Txn) (acc : List (List FsOp)) :
+          MState × List Txn × List (List FsOp) :=
+        match rs with
+        | [] => (m, txns, acc)
+        | r :: rs' =>
+          let es := (parseEnts d.thr r).map (fun e => { e with ver := ts, vfid := if e.vfid ≠ 0 then m.p.vfid else 0 })
+          let t : Txn := { ts := ts, ents := es }
+          let (m', a) := runW { m with p := { m.p with wq := vlogReqProg m.p t } } []
+          vl m' rs' (ts + 1) (txns ++ [t]) (acc ++ a)
+      let (m3, txns, wv) := vl m2 rest (ts0 + 1) [] []
+      let vsync := if m3.p.cfg.syncWrites && !rest.isEmpty then [[FsOp.sync (.vlog m3.p.vfid)]] else []
+      let m3 : MState := { m3 with fs := m3.fs.run vsync.flatten }
+      let rec wl (m : MState) (ts : List Txn) (rts : List Nat) (acc : List (List FsOp)) : MState × List (List FsOp) :=
+        match ts with
+        | [] => (m, acc)
+        | t :: ts' =>
+          let rot := rts.headD 0 != 0
+          let p := m.p
+          let fid := if rot then p.nextMem else p.cur
+          let p' : PState := { p with nextTs := t.ts + 1, commits := p.commits ++ [t], inflight := some t,
+                                      wq := (if rot then rotateProg p else []) ++ walProg p fid t }
+          let (m', a) := runW { m with p := p' } []
+          wl m' ts' (rts.drop 1) (acc ++ a)
+      let (m4, ww) := wl m3 txns (rots.drop 1) []
+      let (m5, f) := runF m4 []
+      let w := w0 ++ wv ++ vsync ++ ww
+      let newVals := (st0 ++ (txns.map (·.ents)).flatten).map (fun e => ((e.key, e.ver), e))
+      ({ d with m := m5, steps := d.steps ++ [{ fs0 := fs0, w := w, f := f }], vals := newVals ++ d.vals },
+       s!"ts={ts0} W: {toks w} | F: {toks f}")
   | ["flush"] =>
     let fs0 := d.m.fs
     let m1 := d.m.step .flushReq
